@@ -121,6 +121,8 @@ def parse (src : List Nat) (cap : Nat) (server : Bool) (maxSize : Nat) : Outcome
     | none => .err "Overflow"
     | some frameLen =>
       if src.length < frameLen then
+        -- frame.rs:106: refuse an announced length above `max_size` as soon as the header is complete
+        if m.length > maxSize then .err "Overflow" else
         let minLength := min m.length maxSize
         match checkedAdd usizeMax m.idx minLength with
         | none => .err "Overflow"
